@@ -280,11 +280,9 @@ func (db *DB) Session(config *Session) *DB {
 				PreparedStmtDB: preparedStmt,
 			}
 		default:
-			tx.Statement.ConnPool = &PreparedStmtDB{
-				ConnPool: db.Config.ConnPool,
-				Mux:      preparedStmt.Mux,
-				Stmts:    preparedStmt.Stmts,
-			}
+			// the registered cache itself, not a second struct around its Mux and current map:
+			// Reset/Close replace Stmts, which must be seen through every handle
+			tx.Statement.ConnPool = preparedStmt
 		}
 		txConfig.ConnPool = tx.Statement.ConnPool
 		txConfig.PrepareStmt = true
